@@ -246,7 +246,7 @@ func genHeavy(t *rapid.T) truncCase {
 	if size < 0 {
 		size = 0
 	}
-	return truncCase{M: m, Size: size, Plain: plain, TC: rapid.IntRange(0, 4).Draw(t, "tc") == 0, Comp: rapid.IntRange(0, 3).Draw(t, "comp") == 0}
+	return truncCase{M: m, Size: size, Plain: plain, TC: rapid.IntRange(0, 4).Draw(t, "tc") == 0, Comp: rapid.IntRange(0, 3).Draw(t, "comp") == 0, FitsAll: !plain && fitsAll(m)}
 }
 
 func init() {
